@@ -6,6 +6,7 @@ import MidnightZK.Proofs.C19.Bisim
 import MidnightZK.Proofs.C19.Serial
 import MidnightZK.Proofs.C19.Circuit
 import MidnightZK.Proofs.C19.Base64
+import MidnightZK.Gen.C19Base64
 /-!
 # C19 — regex compilation, automaton parsing and base64 decoding are exact
 
@@ -203,6 +204,46 @@ theorem parse_rows_iff_run (A : Dfa) (off : Nat) (hoff : 0 < off) (bytes outs : 
       simp only [hr, Bool.and_eq_true, decide_eq_true_eq] at h
       exact ⟨q, by rw [h.2], h.1⟩
 
+/-- **The loaded table.** The list of rows emitted for `AutomatonChip::load` — compared on every
+run with the fixed columns of the real circuit (dummy row, one row per transition, one sentinel
+row per final state, padding = dummy row) — contains exactly the rows that `parse_rows_iff_run`
+is about. -/
+theorem parse_table_rows (A : Dfa) (off : Nat) (row : Nat × Nat × Nat × Nat) :
+    row ∈ tableRows A off ↔ inTable A off row :=
+  mem_tableRows_iff A off row
+
+/-- **Layout of `AutomatonChip::parse` ⇔ run of the automaton.** `mkRows` is the region the chip
+lays out (compared cell by cell, copy constraint by copy constraint, with the real synthesis):
+first state cell pinned to the constant `init + off`, one enabled row per byte with the letter
+copied from the input and FREE next-state and output cells, the enabled sentinel row with
+letter pinned to 256 and output pinned to 0, and a last, disabled row whose state is pinned
+to 0. For every automaton, every shift `off ≥ 1`, every input (length 0 included) and every
+output column: some assignment of the free state cells satisfies all copy constraints and all
+lookups **iff** the automaton accepts the input and emits exactly these outputs. A prover
+cannot deviate in the state or marker cells. -/
+theorem parse_layout_iff_run (A : Dfa) (off : Nat) (hoff : 0 < off) (bytes outs : List Nat)
+    (hb : ∀ b ∈ bytes, b < 256) :
+    (∃ s0 sts, layoutSat A off (mkRows (s0, .fixed (A.init + off)) sts bytes outs)) ↔
+      A.accepts bytes outs = true := by
+  rw [← parse_rows_iff_run A off hoff bytes outs hb]
+  constructor
+  · rintro ⟨s0, sts, h⟩
+    have := (layoutSat_mkRows_iff A off bytes outs (s0, .fixed (A.init + off))).mp ⟨sts, h⟩
+    simp only [pinOk] at this
+    rw [← this.1]
+    exact this.2
+  · intro h
+    obtain ⟨sts, hs⟩ := (layoutSat_mkRows_iff A off bytes outs
+      (A.init + off, .fixed (A.init + off))).mpr ⟨rfl, h⟩
+    exact ⟨_, sts, hs⟩
+
+/-- Non-vacuity: the two-state automaton `0 -a/5-> 1` (final) on the input "a". -/
+example : ∃ s0 sts, layoutSat
+    ⟨2, 0, #[false, true], (Array.replicate 512 none).set! 97 (some (1, 5))⟩ 1
+    (mkRows (s0, .fixed (0 + 1)) sts [97] [5]) :=
+  (parse_layout_iff_run ⟨2, 0, #[false, true], (Array.replicate 512 none).set! 97 (some (1, 5))⟩
+    1 (by decide) [97] [5] (by simp)).mpr (by decide +kernel)
+
 /-- The honest prover's verdict (`parseModel`, what the harness observes under `MockProver`) is
 the acceptance of the automaton. -/
 theorem parseModel_spec (A : Dfa) (bytes outs : List Nat) :
@@ -269,5 +310,40 @@ theorem base64_noncanonical_accepted :
 alphabet (`url_to_standard` only rewrites `-` and `_`). -/
 theorem base64url_accepts_std_chars :
     B64.decodeUrl true [43, 47, 43, 47] = some [251, 255, 191] := by decide
+
+/-! ## Constants regenerated from the Rust sources on every run (`translators/c19_base64.py`) -/
+
+/-- **The model's alphabet is the code's table.** `B64.val` (used by every base64 theorem above)
+agrees on every byte with `table.rs: BASE64_TABLE` as it is in the sources now; the table has 64
+entries, pairwise distinct characters, and its values are `0..63` in order (so the two-character
+lookup `two_entry_table` is a bijection between pairs of alphabet characters and 12-bit values). -/
+theorem base64_table_generated :
+    (∀ c ∈ List.range 256, B64.val c = (Gen.base64Table.find? (·.1 == c)).map (·.2)) ∧
+    Gen.base64Table.map (·.2) = List.range 64 ∧
+    (Gen.base64Table.map (·.1)).Nodup ∧
+    (∀ e ∈ Gen.base64Table, e.1 < 256 ∧ B64.chr e.2 = e.1) := by
+  refine ⟨by decide +kernel, by decide +kernel, by decide +kernel, by decide +kernel⟩
+
+/-- `two_entry_table` combines two characters with `<< 8 ^` and two values with `<< 6 ^`; on the
+entries of the table this is the arithmetic `c0 * 256 + c1 ↦ v0 * 64 + v1` of `B64.pairVal`;
+`two_entry_default` is the pair `(ALT_PAD, ALT_PAD)`, whose value is 0. -/
+theorem base64_two_entry_generated :
+    Gen.twoEntryCharShift = 8 ∧ Gen.twoEntryValShift = 6 ∧
+    (∀ e0 ∈ Gen.base64Table, ∀ e1 ∈ Gen.base64Table,
+      (e0.1 <<< Gen.twoEntryCharShift) ^^^ e1.1 = e0.1 * 256 + e1.1 ∧
+      (e0.2 <<< Gen.twoEntryValShift) ^^^ e1.2 = e0.2 * 64 + e1.2) ∧
+    Gen.twoEntryDefault = B64.altPad * 256 + B64.altPad ∧
+    B64.pairVal B64.altPad B64.altPad = some 0 := by
+  refine ⟨by decide, by decide, by decide +kernel, by decide, by decide⟩
+
+/-- `ALT_PAD`, `B64_PAD`, `ASCII_ZERO`, the substitutions of `url_to_standard` (on every byte)
+and the sentinel letter of the parser are the ones of the sources. -/
+theorem base64_constants_generated :
+    Gen.altPad = B64.altPad ∧ Gen.b64Pad = B64.b64Pad ∧ Gen.asciiZero = 0 ∧
+    B64.val Gen.altPad = some Gen.asciiZero ∧
+    (∀ c ∈ List.range 256,
+      B64.urlToStd c = Gen.urlSubst.foldl (fun c s => if c = s.1 then s.2 else c) c) ∧
+    Gen.alphabetMaxSize = 256 := by
+  refine ⟨by decide, by decide, by decide, by decide, by decide +kernel, by decide⟩
 
 end MidnightZK.C19
